@@ -109,10 +109,7 @@ def r031(ctx, rid):
                     continue
                 d, m = done[0], more[0]
                 payload = '%s?.Done.0' % call
-                if kind == 'Delivery':
-                    res = 'Ok(Some(%sCollectorResult::Delivery((%s.0, %s.1))))' % (CC, payload, payload)
-                else:
-                    res = 'Ok(Some(%sCollectorResult::%s(%s)))' % (CC, kind, payload)
+                res = 'Ok(Some(%sCollectorResult::%s(%s)))' % (CC, kind, payload)  # Delivery((tag, delivery)) rebuilt from the pair reads as the pair
                 # the collector is idle afterwards: the state was take()n (that leaves None) and nothing is stored back, or None is stored explicitly
                 stores = [e for e in d.effects if e.startswith('self.kind = ')]
                 idle_after = d.conds[0][0] == 'std::option::Option::take(self.kind)' and stores in ([], ['self.kind = None'])
